@@ -217,12 +217,14 @@ func (e *Env) entryClosed(name, srt string, l Leaf) {
 	} else {
 		return
 	}
+	// only for objects / backing arrays that existed at entry: locations of objects allocated
+	// later (by callees with `alloc` in their frame) are read from the same array version
 	var fact string
 	if isRef {
-		fact = "(< " + sel + " " + e.next0 + ")"
+		fact = "(and (<= 0 " + sel + ") (=> (< |$r| " + e.next0 + ") (< " + sel + " " + e.next0 + ")))"
 	} else {
 		e.declAtEntry()
-		fact = "(atentry " + sel + ")"
+		fact = "(=> (< |$r| " + e.next0 + ") (atentry " + sel + "))"
 	}
 	e.sess.Cmd("(assert (forall " + decl + " (! " + fact + " :pattern (" + sel + "))))")
 }
@@ -408,10 +410,10 @@ func (e *Env) entryClosedPacked(name string, et types.Type) {
 		term := sx(sels[i], elem)
 		var fact string
 		if isRefType(l.Typ) || strings.HasSuffix(l.Path, "#arr") {
-			fact = "(< " + term + " " + e.next0 + ")"
+			fact = "(and (<= 0 " + term + ") (=> (< |$r| " + e.next0 + ") (< " + term + " " + e.next0 + ")))"
 		} else if isIfaceType(l.Typ) {
 			e.declAtEntry()
-			fact = "(atentry " + term + ")"
+			fact = "(=> (< |$r| " + e.next0 + ") (atentry " + term + "))"
 		} else {
 			continue
 		}
